@@ -6,7 +6,7 @@ pub fn ycbcr_to_rgb(fb_cbycr: [&mut [f32]; 3]) {
 
     #[cfg(target_arch = "x86_64")]
     {
-        if is_x86_feature_detected!("avx") && is_x86_feature_detected!("fma") {
+        if is_x86_feature_detected!("avx2") && is_x86_feature_detected!("fma") {
             // SAFETY: Feature set is checked above.
             return unsafe { run_x86_64_avx2([cb, y, cr]) };
         }
